@@ -143,10 +143,10 @@ def _returns_at_loop_depth(loop) -> bool:
     return walk(loop.body, True)
 
 
-def _has_break_at_depth1(loop) -> bool:
+def _has_break_at_depth1(loop, kinds=(ast.Break,)) -> bool:
     def walk(stmts):
         for st in stmts:
-            if isinstance(st, ast.Break):
+            if isinstance(st, kinds):
                 return True
             if isinstance(st, (ast.While, ast.For, ast.FunctionDef, ast.AsyncFunctionDef, ast.ClassDef)):
                 continue
@@ -550,10 +550,29 @@ class Inliner:
                     continue
             # expression-position calls to single-expression helpers
             self._expr_calls(st, fn, fq, cls)
+            # `for T in [E for a in A for b in B if c]: BODY` (no break in BODY) → the nested loops it abbreviates
+            if isinstance(st, ast.For) and not st.orelse and isinstance(st.iter, (ast.ListComp, ast.GeneratorExp)) \
+                    and not _has_break_at_depth1(st) and not any(g_.is_async for g_ in st.iter.generators):
+                stmts[i:i + 1] = self._desugar_comp_loop(st, fn)
+                continue
+            # `for k in ("a", "b"): BODY` over a short literal of constants (no break/continue) → BODY once per constant
+            if isinstance(st, ast.For) and not st.orelse and isinstance(st.target, ast.Name) and isinstance(st.iter, (ast.Tuple, ast.List)) \
+                    and 0 < len(st.iter.elts) <= 6 and all(isinstance(e_, ast.Constant) for e_ in st.iter.elts) \
+                    and not _has_break_at_depth1(st, (ast.Break, ast.Continue)) \
+                    and not any(isinstance(n_, ast.Name) and n_.id == st.target.id and isinstance(n_.ctx, ast.Store) for b_ in st.body for n_ in ast.walk(b_)):
+                out_: List[ast.stmt] = []
+                for e_ in st.iter.elts:
+                    tr_ = _Subst({st.target.id: e_}, {})
+                    out_.extend(tr_.visit(copy.deepcopy(b_)) for b_ in st.body)
+                for s_ in out_:
+                    ast.fix_missing_locations(s_)
+                stmts[i:i + 1] = out_
+                self.count += 1
+                continue
             # a call to a multi-statement helper that is evaluated first inside a simple statement is hoisted:
             #   return f(helper(x))   →   <helper body, result in t>; return f(t)
-            slot_ = "exc" if isinstance(st, ast.Raise) else "value"
-            if isinstance(st, (ast.Return, ast.Assign, ast.AnnAssign, ast.Expr, ast.Raise)) and getattr(st, slot_, None) is not None:
+            slot_ = "exc" if isinstance(st, ast.Raise) else "test" if isinstance(st, ast.If) else "value"
+            if isinstance(st, (ast.Return, ast.Assign, ast.AnnAssign, ast.Expr, ast.Raise, ast.If)) and getattr(st, slot_, None) is not None:
                 hc = self._first_evaluated_helper_call(getattr(st, slot_), fn, fq, cls)
                 if hc is not None:
                     call, (callee, cfq, recv) = hc
@@ -662,6 +681,37 @@ class Inliner:
         self.inlined.add(cfq)
         self.count += 1
         return out
+
+    def _desugar_comp_loop(self, loop: ast.For, fn) -> List[ast.stmt]:
+        comp = loop.iter
+        caller_names = _names(fn)
+        self._k += 1
+        same = isinstance(comp.elt, ast.Name) and isinstance(loop.target, ast.Name)
+        rename: Dict[str, str] = {}
+        for g_ in comp.generators:
+            for n_ in ast.walk(g_.target):
+                if isinstance(n_, ast.Name) and n_.id in caller_names:
+                    if same and n_.id == comp.elt.id:
+                        rename[n_.id] = loop.target.id
+                    else:
+                        rename[n_.id] = "%s__c%d" % (n_.id, self._k)
+        if same and comp.elt.id not in rename:
+            rename[comp.elt.id] = loop.target.id
+        tr = _Subst({}, rename)
+        elt = tr.visit(copy.deepcopy(comp.elt))
+        body: List[ast.stmt] = list(loop.body)
+        if not (same and isinstance(elt, ast.Name) and elt.id == loop.target.id):
+            body = [ast.Assign(targets=[copy.deepcopy(loop.target)], value=elt)] + body
+        for g_ in reversed(comp.generators):
+            for cond in reversed(g_.ifs):
+                body = [ast.If(test=tr.visit(copy.deepcopy(cond)), body=body, orelse=[])]
+            it_ = copy.deepcopy(g_.iter) if g_ is comp.generators[0] else tr.visit(copy.deepcopy(g_.iter))   # the first iterable belongs to the enclosing scope
+            body = [ast.For(target=tr.visit(copy.deepcopy(g_.target)), iter=it_, body=body, orelse=[], type_comment=None)]
+        for s_ in body:
+            ast.copy_location(s_, loop)
+            ast.fix_missing_locations(s_)
+        self.count += 1
+        return body
 
     def _expand_generator_loop(self, loop: ast.For, fn, fq, cls) -> Optional[List[ast.stmt]]:
         """`for T in g(a): BODY` where g is `<pre>; while/for …: …; yield E` (the yield is the last statement of g's
